@@ -7,6 +7,13 @@
 //! reader script (buffer sizes incl. 0, cancellable reads, pauses) and optionally a connection
 //! cut at a generated frame.
 //!
+//! Mid-stream hand-over: the writer script contains `Move` ops (flush, then send the `io::Sender`
+//! over a base channel to the other endpoint and go on writing there; any number of times, i.e.
+//! also back), and `rx_moves` makes the reader hand the `io::Receiver` over to the other endpoint
+//! between two read calls. A half is moved only while no call is pending on it (the sender after
+//! a successful flush, the receiver after a read call that returned). All oracle rules are stated
+//! over the totals of all owners, so they hold across hand-overs unchanged.
+//!
 //! Oracle (round trip against the bytes *accepted* by the writer):
 //!  * the bytes obtained are a prefix of the bytes accepted, byte for byte;
 //!  * a clean end-of-file is acceptable only when the total equals the fixed size (sized) or the
@@ -22,7 +29,7 @@ use bytes::Bytes;
 use proptest::prelude::*;
 use serde::{Deserialize, Serialize};
 use std::sync::{
-    atomic::{AtomicBool, Ordering},
+    atomic::{AtomicUsize, Ordering},
     Arc, Mutex,
 };
 use tokio::io::{AsyncReadExt, AsyncWriteExt};
@@ -47,6 +54,22 @@ pub const GEN_BOTH_HALVES_SENT: bool = true;
 /// REPORT.md, side finding F1). Not part of the C18 statement; excluded so that the search goes on.
 pub const AVOID_OVERSIZED_HALF_TRANSFER: bool = true;
 pub const MIN_MDS: usize = 512;
+
+/// Generator switch: the `io::Receiver` is handed over to another endpoint only before its first
+/// read call (possibly after the writer has written and flushed part of the stream, so that data is
+/// in flight / buffered in the chmux port). `io::Receiver::serialize` transports neither the number
+/// of bytes already read nor the unread rest of the chunk the receiver holds (see REPORT2.md,
+/// finding F3), so a receiver moved after a read call loses bytes and / or ends a complete stream
+/// with "size mismatch". Set to false to generate hand-overs at any offset.
+pub const AVOID_RECEIVER_MOVE_AFTER_READ: bool = true;
+
+/// Signature of the two symptoms of F3 (bytes missing in the middle / complete stream ends with
+/// "size mismatch") in a run in which the receiver was handed over after a read call had returned.
+pub const SIG_F3: &str = "C18/receiver-moved-after-read";
+
+/// At most this many hand-overs per half and case (ports are a bounded resource).
+pub const MAX_TX_MOVES: usize = 4;
+pub const MAX_RX_MOVES: usize = 3;
 
 /// Where a half ends up.
 #[derive(Clone, Copy, Debug, Serialize, Deserialize, PartialEq, Eq, Hash)]
@@ -93,6 +116,20 @@ pub enum WOp {
     WriteAll(Len),
     Flush,
     Pause,
+    /// flush(); if it succeeds the `io::Sender` is sent to the other endpoint over a base channel
+    /// and the script goes on there.
+    Move,
+}
+
+/// Hand-over of the `io::Receiver` to the other endpoint.
+#[derive(Clone, Debug, Serialize, Deserialize, PartialEq, Eq, Hash)]
+pub struct RMove {
+    /// The move takes place before the first read call that is due when at least this many bytes
+    /// have been obtained, the previous read call (if any) has returned (was not cancelled) and
+    /// all earlier moves are done.
+    pub at: Len,
+    /// Tape-driven pause before the move (lets the writer get ahead).
+    pub pause: bool,
 }
 
 #[derive(Clone, Copy, Debug, Serialize, Deserialize, PartialEq, Eq, Hash)]
@@ -140,6 +177,9 @@ pub struct Case {
     pub end: End,
     pub rsteps: Vec<RStep>,
     pub cut: Option<Cut>,
+    /// Mid-stream hand-overs of the receiver (older replay files have none).
+    #[serde(default)]
+    pub rx_moves: Vec<RMove>,
 }
 
 const MAX_DATA: usize = 1100;
@@ -198,6 +238,16 @@ pub fn normalise(case: &Case) -> Case {
     if c.rsteps.iter().all(|s| resolve(&s.size, &c.cfg_a, &c.cfg_b) == 0) {
         c.rsteps[0].size = Len::Abs(1);
     }
+    let mut moves = 0;
+    for op in c.wops.iter_mut() {
+        if *op == WOp::Move {
+            moves += 1;
+            if moves > MAX_TX_MOVES {
+                *op = WOp::Flush;
+            }
+        }
+    }
+    c.rx_moves.truncate(MAX_RX_MOVES);
     if let Some(cut) = &mut c.cut {
         cut.dir %= 2;
         if !matches!(cut.kind, FaultKind::Eof | FaultKind::StreamError | FaultKind::SinkError) {
@@ -214,6 +264,11 @@ fn exclude_known(case: Case) -> Case {
     if AVOID_OVERSIZED_HALF_TRANSFER {
         c.cfg_a.max_data_size = c.cfg_a.max_data_size.max(MIN_MDS);
         c.cfg_b.max_data_size = c.cfg_b.max_data_size.max(MIN_MDS);
+    }
+    if AVOID_RECEIVER_MOVE_AFTER_READ && std::env::var("VERIF_C18_RX_MOVE_ANYWHERE").is_err() {
+        for m in c.rx_moves.iter_mut() {
+            m.at = Len::Abs(0);
+        }
     }
     let both = GEN_BOTH_HALVES_SENT || std::env::var("VERIF_C18_BOTH_HALVES").is_ok();
     if !both && c.tx_path != Path::Stay && c.rx_path != Path::Stay {
@@ -268,6 +323,7 @@ pub fn strategy(tier: Tier) -> BoxedStrategy<Case> {
         3 => len_strategy().prop_map(WOp::WriteAll),
         2 => Just(WOp::Flush),
         1 => Just(WOp::Pause),
+        2 => Just(WOp::Move),
     ];
     let end = prop_oneof![
         4 => Just(End::Shutdown),
@@ -297,6 +353,20 @@ pub fn strategy(tier: Tier) -> BoxedStrategy<Case> {
         )
             .prop_map(|(dir, after, kind, from_start)| Some(Cut { dir, after, kind, from_start })),
     ];
+    let rmove = (
+        prop_oneof![
+            3 => Just(Len::Abs(0)),
+            2 => (1u16..=40).prop_map(Len::Abs),
+            1 => (1u16..=600).prop_map(Len::Abs),
+            2 => (any::<u8>(), -1i8..=1).prop_map(|(s, o)| Len::Near(s, o)),
+        ],
+        prop_oneof![1 => Just(false), 1 => Just(true)],
+    )
+        .prop_map(|(at, pause)| RMove { at, pause });
+    let rx_moves = prop_oneof![
+        3 => Just(Vec::new()),
+        2 => proptest::collection::vec(rmove, 1..=MAX_RX_MOVES),
+    ];
     (
         (gcfg_small(), gcfg_small(), sched(true)),
         data,
@@ -307,9 +377,10 @@ pub fn strategy(tier: Tier) -> BoxedStrategy<Case> {
         end,
         proptest::collection::vec(rstep, 1..5),
         cut,
+        rx_moves,
     )
-        .prop_map(|((cfg_a, cfg_b, sched), data, mode, (tx_path, rx_path), wops, finish_rest, end, rsteps, cut)| {
-            exclude_known(normalise(&Case { cfg_a, cfg_b, sched, data, mode, tx_path, rx_path, wops, finish_rest, end, rsteps, cut }))
+        .prop_map(|((cfg_a, cfg_b, sched), data, mode, (tx_path, rx_path), wops, finish_rest, end, rsteps, cut, rx_moves)| {
+            exclude_known(normalise(&Case { cfg_a, cfg_b, sched, data, mode, tx_path, rx_path, wops, finish_rest, end, rsteps, cut, rx_moves }))
         })
         .boxed()
 }
@@ -322,6 +393,72 @@ pub fn strategy(tier: Tier) -> BoxedStrategy<Case> {
 struct Halves {
     tx: Option<io::Sender>,
     rx: Option<io::Receiver>,
+}
+
+/// Number of reasons why frame delays must not use virtual time at the moment (see `connect`).
+type Gate = Arc<AtomicUsize>;
+
+/// The four ends of the two base channels (A -> B and B -> A) on one chmux port, owned by the
+/// actor that hands one half over, plus the current location of that half.
+struct Mover {
+    ab_tx: base::Sender<Halves>,
+    ab_rx: base::Receiver<Halves>,
+    ba_tx: base::Sender<Halves>,
+    ba_rx: base::Receiver<Halves>,
+    /// The half is on endpoint B.
+    at_b: bool,
+    deadline: u64,
+    /// `Some((gate, settle_ms))` if an item may have to be streamed (max_data_size below MIN_MDS):
+    /// remoc then (de)serialises on a `spawn_blocking` thread, during whose lifetime tokio does not
+    /// auto-advance the paused clock. While a move is under way frames are paced by ticks, and the
+    /// move starts only after every frame that already waits for virtual time has been released.
+    stream_guard: Option<(Gate, u64)>,
+    done: u32,
+}
+
+impl Mover {
+    fn new(port_a: (remoc::chmux::Sender, remoc::chmux::Receiver), port_b: (remoc::chmux::Sender, remoc::chmux::Receiver), deadline: u64, stream_guard: Option<(Gate, u64)>) -> Self {
+        Mover {
+            ab_tx: base::Sender::new(port_a.0),
+            ab_rx: base::Receiver::new(port_b.1),
+            ba_tx: base::Sender::new(port_b.0),
+            ba_rx: base::Receiver::new(port_a.1),
+            at_b: false,
+            deadline,
+            stream_guard,
+            done: 0,
+        }
+    }
+
+    /// Sends `h` from the endpoint where it is to the other one.
+    async fn transfer(&mut self, h: Halves) -> Result<Halves, String> {
+        if let Some((gate, settle_ms)) = &self.stream_guard {
+            gate.fetch_add(1, Ordering::Relaxed);
+            tokio::time::sleep(std::time::Duration::from_millis(*settle_ms)).await;
+        }
+        let d = self.deadline;
+        let (s, r) = if self.at_b {
+            tokio::join!(sim::within(d, self.ba_tx.send(h)), sim::within(d, self.ba_rx.recv()))
+        } else {
+            tokio::join!(sim::within(d, self.ab_tx.send(h)), sim::within(d, self.ab_rx.recv()))
+        };
+        if let Some((gate, _)) = &self.stream_guard {
+            gate.fetch_sub(1, Ordering::Relaxed);
+        }
+        let dir = if self.at_b { "B->A" } else { "A->B" };
+        match (s, r) {
+            (Ok(Ok(())), Ok(Ok(Some(h)))) => {
+                self.at_b = !self.at_b;
+                self.done += 1;
+                Ok(h)
+            }
+            (s, r) => Err(format!(
+                "transfer {dir} failed: send {:?}, recv {:?}",
+                s.map(|x| x.map_err(|e| e.to_string())).map_err(|_| "no result within the deadline"),
+                r.map(|x| x.map(|h| h.is_some()).map_err(|e| e.to_string())).map_err(|_| "no result within the deadline")
+            )),
+        }
+    }
 }
 
 #[derive(Clone, Debug, PartialEq)]
@@ -361,6 +498,10 @@ struct WLog {
     refused: u32,
     current: String,
     finished: bool,
+    /// Accepted totals at which the sender was handed over.
+    moves: Vec<usize>,
+    /// A hand-over failed (reported only on a healthy connection).
+    move_failed: Option<String>,
 }
 
 #[derive(Clone, Debug, PartialEq)]
@@ -370,6 +511,8 @@ enum REv {
     Cancelled,
     Eof,
     Err(String),
+    /// The receiver was handed over (bytes obtained so far, bytes accepted by the writer so far).
+    Moved(usize, usize),
 }
 
 #[derive(Default, Debug)]
@@ -382,6 +525,11 @@ struct RLog {
     bogus: Option<String>,
     current: String,
     finished: bool,
+    /// (bytes obtained, bytes accepted by the writer) at each hand-over of the receiver.
+    moves: Vec<(usize, usize)>,
+    move_failed: Option<String>,
+    /// Hand-overs that took place after at least one read call had returned (trigger of F3).
+    moves_after_read: u32,
 }
 
 fn errs(e: &std::io::Error) -> String {
@@ -468,17 +616,64 @@ impl WCtx {
     }
 }
 
-async fn writer(mut tx: io::Sender, ctx: WCtx, wops: Vec<(WOp, usize)>, finish_rest: bool, end: End, tape: Tape) -> Option<io::Sender> {
+async fn writer(tx: io::Sender, ctx: WCtx, wops: Vec<(WOp, usize)>, finish_rest: bool, end: End, tape: Tape, mut mover: Mover) -> (Option<io::Sender>, Mover) {
     let mut stop = false;
+    // `None` only after a failed hand-over.
+    let mut txo = Some(tx);
     for (op, len) in &wops {
+        let Some(tx) = txo.as_mut() else { break };
         match op {
+            WOp::Move => {
+                // Only a flushed sender is handed over: what was accepted so far is then with chmux.
+                let off = ctx.accepted();
+                ctx.log.lock().unwrap().current = format!("flush before move at {off}");
+                let r = tx.flush().await;
+                {
+                    let mut log = ctx.log.lock().unwrap();
+                    match r {
+                        Ok(()) => {
+                            log.flushed = off;
+                            log.evs.push(WEv { op: "flush", off, req: 0, res: WRes::Done });
+                        }
+                        Err(e) => {
+                            log.evs.push(WEv { op: "flush", off, req: 0, res: WRes::Err(errs(&e)) });
+                            log.spurious.get_or_insert(format!("flush at offset {off} failed: {}", errs(&e)));
+                            stop = true;
+                        }
+                    }
+                    log.current = format!("move at {off}");
+                }
+                if !stop {
+                    let h = Halves { tx: txo.take(), rx: None };
+                    match mover.transfer(h).await {
+                        Ok(Halves { tx: Some(t), .. }) => {
+                            txo = Some(t);
+                            let mut log = ctx.log.lock().unwrap();
+                            log.moves.push(off);
+                            log.evs.push(WEv { op: "move", off, req: 0, res: WRes::Done });
+                        }
+                        Ok(_) => {
+                            let mut log = ctx.log.lock().unwrap();
+                            log.evs.push(WEv { op: "move", off, req: 0, res: WRes::Err("no sender arrived".into()) });
+                            log.move_failed.get_or_insert(format!("hand-over of the sender at offset {off}: the item arrived without the sender"));
+                            stop = true;
+                        }
+                        Err(e) => {
+                            let mut log = ctx.log.lock().unwrap();
+                            log.evs.push(WEv { op: "move", off, req: 0, res: WRes::Err(e.clone()) });
+                            log.move_failed.get_or_insert(format!("hand-over of the sender at offset {off}: {e}"));
+                            stop = true;
+                        }
+                    }
+                }
+            }
             WOp::Write { polls, .. } => {
-                if let Err(s) = ctx.write_once(&mut tx, "write", *len, *polls).await {
+                if let Err(s) = ctx.write_once(tx, "write", *len, *polls).await {
                     stop = s;
                 }
             }
             WOp::WriteAll(_) => {
-                if let Err(s) = ctx.write_all(&mut tx, *len).await {
+                if let Err(s) = ctx.write_all(tx, *len).await {
                     stop = s;
                 }
             }
@@ -505,6 +700,12 @@ async fn writer(mut tx: io::Sender, ctx: WCtx, wops: Vec<(WOp, usize)>, finish_r
             break;
         }
     }
+    let Some(mut tx) = txo else {
+        let mut log = ctx.log.lock().unwrap();
+        log.current = "done".into();
+        log.finished = true;
+        return (None, mover);
+    };
     if !stop && finish_rest {
         let left = ctx.data.len() - ctx.accepted();
         if left > 0 {
@@ -559,13 +760,56 @@ async fn writer(mut tx: io::Sender, ctx: WCtx, wops: Vec<(WOp, usize)>, finish_r
     let mut log = ctx.log.lock().unwrap();
     log.current = "done".into();
     log.finished = true;
-    keep
+    drop(log);
+    (keep, mover)
 }
 
-async fn reader(mut rx: io::Receiver, steps: Vec<(usize, Option<u8>, bool)>, tape: Tape, log: Arc<Mutex<RLog>>) -> io::Receiver {
+async fn reader(
+    rx: io::Receiver, steps: Vec<(usize, Option<u8>, bool)>, tape: Tape, log: Arc<Mutex<RLog>>, moves: Vec<(usize, bool)>, mut mover: Option<Mover>,
+    wlog: Arc<Mutex<WLog>>,
+) -> Option<io::Receiver> {
     let mut cancels = 0u32;
     let mut k = 0usize;
-    loop {
+    let mut next_move = 0usize;
+    // No read call is pending inside the receiver: none was issued yet or the last one returned.
+    let mut idle = true;
+    let mut returned_reads = 0u32;
+    let mut rxo = Some(rx);
+    'outer: loop {
+        // Hand-overs that are due.
+        while idle && next_move < moves.len() && log.lock().unwrap().got.len() >= moves[next_move].0 {
+            let Some(mv) = mover.as_mut() else { break };
+            let pause = moves[next_move].1;
+            next_move += 1;
+            if pause {
+                tape_pause(&tape, true).await;
+            }
+            let so_far = log.lock().unwrap().got.len();
+            let written = wlog.lock().unwrap().accepted;
+            log.lock().unwrap().current = format!("move after {so_far} bytes");
+            let h = Halves { tx: None, rx: rxo.take() };
+            let res = mv.transfer(h).await;
+            let mut l = log.lock().unwrap();
+            match res {
+                Ok(Halves { rx: Some(r), .. }) => {
+                    rxo = Some(r);
+                    l.moves.push((so_far, written));
+                    l.evs.push(REv::Moved(so_far, written));
+                    if returned_reads > 0 {
+                        l.moves_after_read += 1;
+                    }
+                }
+                Ok(_) => {
+                    l.move_failed.get_or_insert(format!("hand-over of the receiver after {so_far} bytes: the item arrived without the receiver"));
+                    break 'outer;
+                }
+                Err(e) => {
+                    l.move_failed.get_or_insert(format!("hand-over of the receiver after {so_far} bytes: {e}"));
+                    break 'outer;
+                }
+            }
+        }
+        let rx = rxo.as_mut().expect("receiver present");
         let (size, polls, pause) = steps[k % steps.len()];
         k += 1;
         if pause {
@@ -577,6 +821,10 @@ async fn reader(mut rx: io::Receiver, steps: Vec<(usize, Option<u8>, bool)>, tap
         log.lock().unwrap().current = format!("read({size}) after {so_far} bytes");
         let res = CancelAfter::new(rx.read(&mut buf), polls.map(|p| p as u32)).await;
         let mut l = log.lock().unwrap();
+        idle = !matches!(res, Cancelled::Dropped);
+        if idle {
+            returned_reads += 1;
+        }
         match res {
             Cancelled::Dropped => {
                 cancels += 1;
@@ -606,7 +854,7 @@ async fn reader(mut rx: io::Receiver, steps: Vec<(usize, Option<u8>, bool)>, tap
         }
     }
     let eof = log.lock().unwrap().eof;
-    if eof {
+    if let (true, Some(rx)) = (eof, rxo.as_mut()) {
         // End-of-file is final: one more read must not produce data.
         log.lock().unwrap().current = "read after EOF".into();
         let mut buf = [0u8; 8];
@@ -624,22 +872,24 @@ async fn reader(mut rx: io::Receiver, steps: Vec<(usize, Option<u8>, bool)>, tap
     l.current = "done".into();
     l.finished = true;
     drop(l);
-    rx
+    rxo
 }
 
 /// Like `gen::connect_pair`, but virtual-time frame delays are replaced by tick delays until
 /// `timers_ok` is set. Reason: the halves are transferred over a base channel whose item does not
 /// fit into one small chunk, so remoc (de)serialises it on a `spawn_blocking` thread, and tokio
 /// does not auto-advance a paused clock while such a task is alive; a frame waiting for virtual
-/// time would then wait forever. After the placement the clock is free again.
-async fn connect(case: &Case, faults: Vec<Fault>, timers_ok: Arc<AtomicBool>) -> Result<(SimLink, gen::Side, gen::Side), String> {
+/// time would then wait forever. After the placement the clock is free again (until a mid-stream
+/// hand-over that may have to stream its item, see `Mover::stream_guard`). `gate` counts the reasons
+/// for tick pacing; virtual-time delays are used while it is zero.
+async fn connect(case: &Case, faults: Vec<Fault>, gate: Gate) -> Result<(SimLink, gen::Side, gen::Side), String> {
     use remoc::chmux::ChMux;
     let cap = gen::delay_cap_ms(&case.cfg_a, &case.cfg_b);
     let mk = |codes: &Vec<u8>| -> Box<dyn FnMut(u32) -> Delay + Send> {
-        let ok = timers_ok.clone();
+        let gate = gate.clone();
         let mut inner = gen::delay_fn(codes.clone(), cap);
         Box::new(move |idx| match inner(idx) {
-            Delay::Ms(ms) if !ok.load(Ordering::Relaxed) => Delay::Ticks(1 + (ms % 5) as u32),
+            Delay::Ms(ms) if gate.load(Ordering::Relaxed) > 0 => Delay::Ticks(1 + (ms % 5) as u32),
             d => d,
         })
     };
@@ -674,6 +924,15 @@ pub struct Run {
     pub frames: u64,
     pub multi_chunk: bool,
     pub cut_hit: bool,
+    /// Hand-overs of the sender: all / after >= 1 accepted byte / followed by further accepted bytes.
+    pub tx_moves: u32,
+    pub tx_moves_mid: u32,
+    pub tx_moves_then_more: u32,
+    /// Hand-overs of the receiver: all / with bytes already accepted by the writer / after >= 1 byte read.
+    pub rx_moves: u32,
+    pub rx_moves_data_pending: u32,
+    pub rx_moves_mid: u32,
+    pub rx_moves_then_more: u32,
 }
 
 async fn execute(case: &Case) -> Run {
@@ -685,7 +944,8 @@ async fn execute(case: &Case) -> Run {
     // actors (at most 5 virtual s each: one per reader iteration, one per writer Pause op).
     let len = resolve_data(&case.data, ca, cb);
     let reader_iters = (len as u64 + 2) * case.rsteps.len() as u64 + 64;
-    let deadline = case.sched.deadline_s(3_000, cap) + 5 * (reader_iters + case.wops.len() as u64);
+    let n_moves = case.wops.iter().filter(|o| **o == WOp::Move).count() as u64 + case.rx_moves.len() as u64;
+    let deadline = case.sched.deadline_s(3_000, cap) + 5 * (reader_iters + case.wops.len() as u64) + n_moves * (6 + cap / 1000);
     let faulty = case.cut.is_some();
     let start_faults = match &case.cut {
         Some(c) if c.from_start => vec![Fault { dir: c.dir, after: c.after as u32, kind: c.kind }],
@@ -699,8 +959,9 @@ async fn execute(case: &Case) -> Run {
             return out;
         }};
     }
-    let timers_ok = Arc::new(AtomicBool::new(false));
-    let (link, a, b) = match sim::within(deadline, connect(case, start_faults, timers_ok.clone())).await {
+    // One reason for tick pacing until the halves are placed.
+    let gate: Gate = Arc::new(AtomicUsize::new(1));
+    let (link, a, b) = match sim::within(deadline, connect(case, start_faults, gate.clone())).await {
         Ok(Ok(x)) => x,
         Ok(Err(e)) => setup_fail!(e),
         Err(()) => setup_fail!("handshake hangs".to_string()),
@@ -712,10 +973,22 @@ async fn execute(case: &Case) -> Run {
         (Ok(Ok(c)), Ok(Ok(Some(l)))) => (c, l),
         _ => setup_fail!("base port setup failed".to_string()),
     };
-    let mut ab_tx = base::Sender::<Halves>::new(raw_tx_a);
-    let mut ab_rx = base::Receiver::<Halves>::new(raw_rx_b);
-    let mut ba_tx = base::Sender::<Halves>::new(raw_tx_b);
-    let mut ba_rx = base::Receiver::<Halves>::new(raw_rx_a);
+    // An item with a half may exceed max_data_size (only if the exclusion of F1 is off): streamed.
+    let may_stream = ca.max_data_size.min(cb.max_data_size) < MIN_MDS;
+    let guard = || if may_stream { Some((gate.clone(), cap + 1)) } else { None };
+    // The port used for the placement is the writer's afterwards; the reader gets its own one if
+    // it has to hand the receiver over.
+    let mut wmover = Mover::new((raw_tx_a, raw_rx_a), (raw_tx_b, raw_rx_b), deadline, guard());
+    let mut rmover = if case.rx_moves.is_empty() {
+        None
+    } else {
+        let (conn, acc) = tokio::join!(sim::within(deadline, cl_a.connect()), sim::within(deadline, lb.accept()));
+        match (conn, acc) {
+            (Ok(Ok(c)), Ok(Ok(Some(l)))) => Some(Mover::new(c, l, deadline, guard())),
+            _ => setup_fail!("second base port setup failed".to_string()),
+        }
+    };
+    let Mover { ab_tx, ab_rx, ba_tx, ba_rx, .. } = &mut wmover;
 
     let data = payload(18, len);
     let size: Option<usize> = match case.mode {
@@ -768,7 +1041,11 @@ async fn execute(case: &Case) -> Run {
     }
     let (Some(tx), Some(rx)) = (tx, rx) else { setup_fail!("a half got lost in transfer".to_string()) };
     out.setup_ok = true;
-    timers_ok.store(true, Ordering::Relaxed);
+    gate.fetch_sub(1, Ordering::Relaxed);
+    wmover.at_b = case.tx_path == Path::Remote;
+    if let Some(m) = rmover.as_mut() {
+        m.at_b = case.rx_path == Path::Remote;
+    }
     if let Some(c) = &case.cut {
         if !c.from_start {
             link.arm(Fault { dir: c.dir, after: link.sent(c.dir) + c.after as u32, kind: c.kind });
@@ -789,8 +1066,9 @@ async fn execute(case: &Case) -> Run {
         })
         .collect();
     let steps: Vec<(usize, Option<u8>, bool)> = case.rsteps.iter().map(|s| (resolve(&s.size, ca, cb), s.polls, s.pause)).collect();
-    let wh = spawn_actor(writer(tx, WCtx { data: data.clone(), size, faulty, log: wlog.clone() }, wops, case.finish_rest, case.end, tape.clone()));
-    let rh = spawn_actor(reader(rx, steps, tape.clone(), rlog.clone()));
+    let rmoves: Vec<(usize, bool)> = case.rx_moves.iter().map(|m| (resolve(&m.at, ca, cb), m.pause)).collect();
+    let wh = spawn_actor(writer(tx, WCtx { data: data.clone(), size, faulty, log: wlog.clone() }, wops, case.finish_rest, case.end, tape.clone(), wmover));
+    let rh = spawn_actor(reader(rx, steps, tape.clone(), rlog.clone(), rmoves, rmover, wlog.clone()));
 
     let wres = sim::within(deadline, wh).await;
     let _kept_tx = match wres {
@@ -861,14 +1139,23 @@ async fn execute(case: &Case) -> Run {
     out.unflushed_drop = w.flushed < accepted;
     let min_chunk = ca.chunk_size.min(cb.chunk_size) as usize;
     out.multi_chunk = accepted > min_chunk;
+    out.tx_moves = w.moves.len() as u32;
+    out.tx_moves_mid = w.moves.iter().filter(|&&o| o > 0).count() as u32;
+    out.tx_moves_then_more = w.moves.iter().filter(|&&o| o > 0 && accepted > o).count() as u32;
+    out.rx_moves = r.moves.len() as u32;
+    out.rx_moves_data_pending = r.moves.iter().filter(|m| m.1 > m.0).count() as u32;
+    out.rx_moves_mid = r.moves.iter().filter(|m| m.0 > 0).count() as u32;
+    out.rx_moves_then_more = r.moves.iter().filter(|m| m.0 > 0 && r.got.len() > m.0).count() as u32;
     let ctx = || {
         format!(
-            "mode {:?} size {size:?}, data {len}, tx {:?}, rx {:?}, end {:?}, cut {:?}; accepted {accepted}, flushed {}, shutdown {:?}; reader: {} bytes, eof {}, err {:?}; writer events {:?}; reader events {:?}",
+            "mode {:?} size {size:?}, data {len}, tx {:?}, rx {:?}, end {:?}, cut {:?}; sender handed over at {:?}, receiver at (read, written) {:?}; accepted {accepted}, flushed {}, shutdown {:?}; reader: {} bytes, eof {}, err {:?}; writer events {:?}; reader events {:?}",
             case.mode,
             case.tx_path,
             case.rx_path,
             case.end,
             case.cut,
+            w.moves,
+            r.moves,
             w.flushed,
             w.shutdown,
             r.got.len(),
@@ -879,6 +1166,9 @@ async fn execute(case: &Case) -> Run {
         )
     };
 
+    // The two symptoms of finding F3 get a signature of their own when its trigger was present, so
+    // that the finding can be tracked without masking other violations with the generic signatures.
+    let f3 = r.moves_after_read > 0;
     // (1) Bytes obtained are a prefix of the bytes accepted.
     if let Some(b) = &r.bogus {
         out.fails.push(("C18/bogus-read".into(), format!("{b}; {}", ctx())));
@@ -887,7 +1177,7 @@ async fn execute(case: &Case) -> Run {
         out.fails.push(("C18/phantom-bytes".into(), format!("reader obtained {} bytes but only {accepted} were accepted by the writer; {}", r.got.len(), ctx())));
     } else if r.got[..] != data[..r.got.len()] {
         let at = r.got.iter().zip(data.iter()).position(|(x, y)| x != y).unwrap_or(0);
-        out.fails.push(("C18/corrupt".into(), format!("bytes obtained differ from the bytes written at offset {at}; {}", ctx())));
+        out.fails.push((if f3 { SIG_F3 } else { "C18/corrupt" }.into(), format!("bytes obtained differ from the bytes written at offset {at}; {}", ctx())));
     }
     // (2) Over-long writes are refused.
     if let Some(o) = &w.overlong {
@@ -943,11 +1233,16 @@ async fn execute(case: &Case) -> Run {
                 out.fails.push(("C18/spurious-write-error".into(), format!("shutdown after {} bytes failed: {e}; {}", w.at_shutdown, ctx())));
             }
         }
+        // (5b) A half that is idle (flushed sender / receiver between two read calls) can be handed
+        // over to the other endpoint.
+        if let Some(m) = w.move_failed.as_ref().or(r.move_failed.as_ref()) {
+            out.fails.push(("C18/move-failed".into(), format!("{m}; {}", ctx())));
+        }
         // (6) Complete streams arrive completely and end cleanly.
         if complete {
             if !r.eof || r.got.len() != accepted {
                 out.fails.push((
-                    "C18/complete-stream-not-delivered".into(),
+                    if f3 { SIG_F3 } else { "C18/complete-stream-not-delivered" }.into(),
                     format!("the stream was completed ({accepted} bytes, flushed) but the reader obtained {} bytes and ended with {:?}; {}", r.got.len(), r.err, ctx()),
                 ));
             }
@@ -1020,12 +1315,42 @@ pub fn run(case: &Case) -> Outcome {
         if res.cut_hit {
             out.class("run:cut-took-effect");
         }
+        if res.tx_moves == 0 && res.rx_moves == 0 {
+            out.class("move:none");
+        }
+        if res.tx_moves > 0 {
+            out.class("move:sender");
+        }
+        if res.tx_moves_mid > 0 {
+            out.class("move:sender-after-accepted-bytes");
+        }
+        if res.tx_moves_then_more > 0 {
+            out.class("move:sender-mid-stream-bytes-accepted-before-and-after");
+        }
+        if res.tx_moves_mid > 1 {
+            out.class("move:sender-mid-stream-more-than-once");
+        }
+        if res.rx_moves > 0 {
+            out.class("move:receiver");
+        }
+        if res.rx_moves_data_pending > 0 {
+            out.class("move:receiver-with-unread-bytes-written");
+        }
+        if res.rx_moves_mid > 0 {
+            out.class("move:receiver-after-bytes-read");
+        }
+        if res.rx_moves_then_more > 0 {
+            out.class("move:receiver-mid-stream-bytes-read-before-and-after");
+        }
+        if res.tx_moves_mid > 0 && res.rx_moves > 0 {
+            out.class("move:both-halves");
+        }
     }
     out.nontrivial = res.setup_ok && (res.accepted > 0 || res.refused > 0 || res.rx_err);
     out
 }
 
-pub const RULE: &str = "cases = (Cfg pair with max_data_size >= both chunk sizes, schedule, byte string of 0..~8 chunks with boundary-biased length, mode unsized / sized exact / sized with data too short / too long, placement of each half: stays on A / sent to B / sent to B and back (forwarded), writer script of write (cancellable) / write_all / flush / pause with boundary-biased lengths incl. empty, optional write_all of the rest, end = shutdown / shutdown+hold / flush+drop / drop, cyclic reader script of buffer sizes incl. 0 with cancellable reads and pauses, optional connection cut Eof/StreamError/SinkError after k frames of one direction); oracle = bytes obtained are a byte-exact prefix of the bytes accepted by write calls; clean EOF only at the fixed size (sized) or at the size announced by a successful shutdown (unsized); sized total never exceeds the size and a short shutdown fails; on a healthy connection a stream completed per the AsyncWrite contract is delivered completely with clean EOF, writer calls do not fail spuriously, an incomplete stream ends with a reader error; both sides always terminate within the virtual deadline. non-trivial = both halves were placed and (>= 1 byte was accepted or an over-long write was refused or the reader ended with an error); distinct = distinct case hash";
+pub const RULE: &str = "cases = (Cfg pair with max_data_size >= both chunk sizes, schedule, byte string of 0..~8 chunks with boundary-biased length, mode unsized / sized exact / sized with data too short / too long, placement of each half: stays on A / sent to B / sent to B and back (forwarded), writer script of write (cancellable) / write_all / flush / pause / move (flush, then hand the io::Sender over to the other endpoint through a base channel and go on writing there; up to 4 times, i.e. also back) with boundary-biased lengths incl. empty, optional write_all of the rest, end = shutdown / shutdown+hold / flush+drop / drop, cyclic reader script of buffer sizes incl. 0 with cancellable reads and pauses, up to 3 hand-overs of the io::Receiver to the other endpoint (generated only before its first read call while finding F3 is excluded, typically with written but unread bytes in flight), optional connection cut Eof/StreamError/SinkError after k frames of one direction); oracle = bytes obtained are a byte-exact prefix of the bytes accepted by write calls; clean EOF only at the fixed size (sized) or at the size announced by a successful shutdown (unsized); sized total never exceeds the size and a short shutdown fails; on a healthy connection a stream completed per the AsyncWrite contract is delivered completely with clean EOF, writer calls do not fail spuriously, an incomplete stream ends with a reader error; an idle half can be handed over on a healthy connection; all rules are stated over the totals of all owners of a half, so they apply across hand-overs; both sides always terminate within the virtual deadline. non-trivial = both halves were placed and (>= 1 byte was accepted or an over-long write was refused or the reader ended with an error); distinct = distinct case hash";
 
 pub fn main(tier: Tier, seed: u64) -> Report {
     let mut rep = Report::new("C18", tier, seed);
@@ -1035,6 +1360,7 @@ pub fn main(tier: Tier, seed: u64) -> Report {
         "at least one half leaves the creating endpoint (documented requirement of rch::io / rch::bin)".into(),
         "after a failed write / flush call the sender is not used again (except after the refusal of an over-long write); after a failed read the receiver is not used again".into(),
         "a stream counts as completed only if all accepted bytes are followed by a successful flush or shutdown (AsyncWrite contract)".into(),
+        "a half is handed over to another endpoint only while no call is pending on it: the sender after a successful flush, the receiver before its first read call (AVOID_RECEIVER_MOVE_AFTER_READ: a receiver moved after a read call loses its byte count and buffered bytes, finding F3)".into(),
         "connection cuts are Eof / StreamError / SinkError faults of the simulated transport; single-threaded deterministic simulation".into(),
     ];
     let regress: Vec<Case> = runner::load_regress::<Case>("C18", "io").into_iter().map(|(_, c)| c).collect();
